@@ -194,7 +194,10 @@ func (ic *inferContext) inferRelTypesFromPremise(premises []ast.Term, state *inf
 			alternatives, err = bc.getOrInferRelTypes(atom.Predicate, atom.Args, state.asMap(), typeCtx)
 		}
 		if err != nil {
-			return nil, fmt.Errorf("type mismatch %v : %v ", premise, err)
+			// No alternative of the negated predicate can match arguments of these
+			// types: the negated atom holds for every binding this state describes.
+			// The state must continue unchanged; dropping it would lose those bindings.
+			return []*inferState{state.makeNext()}, nil
 		}
 		// For negated premise, there is never a variable bound so we never need to add
 		// a binding. We can refine existing bindings by using negative information.
